@@ -62,15 +62,20 @@ def calleeQn : Expr → Option String
 
 /-- E3–E6 -/
 def allowedCallee (cfg : Cfg) (scopes : List String) (full : String) : Bool :=
-  full.startsWith "ag__." || scopes.any (fun c => full.startsWith (c ++ "."))
+  startsWith full "ag__." || scopes.any (fun c => startsWith full (c ++ "."))
     || debuggers.contains full || (full == "print" && !cfg.builtinsOn)
 
-/-- E7: is this call node itself the packing call allowed at position `pos`? -/
+def isNameOf (s : String) : Expr → Bool
+  | .name _ n _ => n == s
+  | _ => false
+
+/-- E7: is this call node itself the packing call allowed at position `pos`?
+`tuple(x)` (exactly one positional argument, no keywords) in ARGS; `dict(**kw, k=v)` (no positional argument) in KWARGS. -/
 def packOk (pos : Pos) (f : Expr) (args kws : List Expr) : Bool :=
-  match pos, f, args, kws with
-  | .packA, .name _ "tuple" _, [_], [] => true
-  | .packK, .name _ "dict" _, [], _ => true
-  | _, _, _, _ => false
+  match pos with
+  | .packA => isNameOf "tuple" f && args.length == 1 && kws.isEmpty
+  | .packK => isNameOf "dict" f && args.isEmpty
+  | .normal => false
 
 def callOk (cfg : Cfg) (sc : List String) (inWith : Bool) (pos : Pos) (f : Expr) (args kws : List Expr) : Bool :=
   inWith || allowedCallee cfg sc ((calleeQn f).getD "") || packOk pos f args kws
